@@ -140,7 +140,22 @@ impl<'brand> ConstructNode<'brand> {
                 wit: &Option<Value>,
             ) -> Result<Value, Self::Error> {
                 if let Some(ref wit) = wit {
-                    Ok(wit.shallow_clone())
+                    // The witness was attached before types were inferred. Coerce it to the
+                    // type that its node ended up with (the identity for a well-typed witness)
+                    // and refuse values that do not denote an element of that type.
+                    let ty = data
+                        .node
+                        .arrow()
+                        .target
+                        .finalize()
+                        .map_err(FinalizeError::Type)?;
+                    wit.prune(&ty).ok_or_else(|| {
+                        FinalizeError::Type(types::Error::CompleteTypeMismatch {
+                            type1: ty,
+                            type2: Arc::new(wit.ty().clone()),
+                            hint: "Witness value does not match the target type of its node",
+                        })
+                    })
                 } else {
                     // We insert a zero value into unpopulated witness nodes,
                     // assuming that this node will later be pruned out of the program.
